@@ -258,6 +258,7 @@ pub fn c01_block(b: usize, sink: &mut Sink, judge: &ServeJudge) {
                         c.hdrs.push(("range".into(), rv.clone()));
                     }
                     c.hdrs.extend(cond.iter().cloned());
+                    c.data_kind = (c.hdrs.len() % 3 == 2) as u8; // a third with the multi-segment Data type
                     exec(&c, sink, judge);
                 }
             }
@@ -494,6 +495,7 @@ impl Prop for C02 {
             let mut c = ServeCase::get(ent.clone());
             c.cap = cap_for(&plan, thorough(&ctx));
             if let Some(v) = v {
+                c.data_kind = (v.len() % 3 == 0) as u8;
                 c.hdrs.push(("range".into(), v.into_bytes()));
             }
             exec(&c, sink, &c02_judge);
@@ -1560,6 +1562,7 @@ pub fn c06_block(b: usize, sink: &mut Sink, judge: &ServeJudge) {
                 if with_if_range {
                     c.hdrs.push(("if-range".into(), b"\"v1\"".to_vec()));
                 }
+                c.data_kind = (set_i % 5 == 2) as u8;
                 exec(&c, sink, judge);
             }
         }
@@ -1737,6 +1740,7 @@ pub fn c07_cases_for_tuple(t: &[u32], slow: bool) -> Vec<ServeCase> {
                     let ent = EntSpec { len, etag: None, mtime: None, hdrs: vec![("content-type".into(), b"x/y".to_vec())], plan, fault: Some(Fault { call, at: *at, kind: kind.clone() }), slow_calls: false, content_mode: 0 };
                     let mut c = ServeCase::get(ent);
                     c.extra_polls = 3;
+                    c.data_kind = ((*at + call as u64 + variant as u64) % 3 == 0) as u8;
                     if let Some(r) = &range {
                         c.hdrs.push(("range".into(), r.clone().into_bytes()));
                     }
